@@ -1,6 +1,7 @@
 import RockitModel.Model.Initial
 import RockitModel.Model.Der
 import RockitModel.Model.Inf
+import RockitModel.Model.Stages
 /-!
 Line-protocol driver: reads an OCP description, a decision point and `run …` requests from
 stdin, evaluates the model over `Rat`, prints canonical answers.
@@ -108,6 +109,13 @@ structure B where
   gs : Guesses Rat := {}
   /-- a standalone evaluation environment (`e <kind> values…` lines) -/
   env : Env Rat := { t := 0, T := 0, t0 := 0, DT := 0, DTc := 0 }
+  /-- multi-stage state: survives `begin` (which starts the next child stage), reset by `mbegin` -/
+  mstages : Array (Ctx Rat) := #[]
+  mrefs : Array StageRef := #[]
+  mV : Array Rat := #[]
+  mP : Array Rat := #[]
+  mcons : Array (Con Rat) := #[]
+  mobj : Expr := .const 0 1
 
 def setAt {β : Type} (a : Array β) (i : Nat) (v : β) (dflt : β) : Array β :=
   let a := if a.size ≤ i then a ++ Array.replicate (i + 1 - a.size) dflt else a
@@ -198,7 +206,36 @@ def stepLine (b : B) (line : String) : Except String (B × List String) := do
   let toks := (line.splitOn " ").filter (· ≠ "")
   match toks with
   | [] => return (b, [])
-  | ["begin"] => return ({}, [])
+  | ["begin"] => return ({ mstages := b.mstages, mrefs := b.mrefs, mV := b.mV, mP := b.mP, mcons := b.mcons, mobj := b.mobj }, [])
+  | ["mbegin"] => return ({}, [])
+  | ["stage_push"] =>
+      let c ← b.build
+      return ({ b with mstages := b.mstages.push c }, [])
+  | ["mref", "ph", i, j] => return ({ b with mrefs := b.mrefs.push (.ph i.toNat! j.toNat!) }, [])
+  | ["mref", "T", i] => return ({ b with mrefs := b.mrefs.push (.T i.toNat!) }, [])
+  | ["mref", "t0", i] => return ({ b with mrefs := b.mrefs.push (.t0 i.toNat!) }, [])
+  | ["mref", "tf", i] => return ({ b with mrefs := b.mrefs.push (.tf i.toNat!) }, [])
+  | "mV" :: r => return ({ b with mV := (← parseRats r) }, [])
+  | "mP" :: r => return ({ b with mP := (← parseRats r) }, [])
+  | ["mcon", cid, rel, scale] =>
+      let rel ← (match rel with | "le" => pure Rel.le | "eq" => pure .eq | "two" => pure .two | _ => throw "bad rel")
+      let s ← parseRats [scale]
+      let k : Con Rat := { id := cid.toNat!, rel := rel, a := .const 0 1, b := .const 0 1, grid := .point, scale := s[0]! }
+      return ({ b with mcons := b.mcons.push k }, [])
+  | "ma" :: e =>
+      let e ← parseExprAll e
+      return ({ b with mcons := b.mcons.modify (b.mcons.size - 1) (fun k => { k with a := e }) }, [])
+  | "mb" :: e =>
+      let e ← parseExprAll e
+      return ({ b with mcons := b.mcons.modify (b.mcons.size - 1) (fun k => { k with b := e }) }, [])
+  | "mcc" :: e =>
+      let e ← parseExprAll e
+      return ({ b with mcons := b.mcons.modify (b.mcons.size - 1) (fun k => { k with c := e }) }, [])
+  | "mobj" :: e => return ({ b with mobj := (← parseExprAll e) }, [])
+  | ["run", "multi"] =>
+      let m : Multi Rat := { stages := b.mstages.toList, refs := b.mrefs, V := b.mV, P := b.mP, cons := b.mcons.toList, objective := b.mobj }
+      let n := m.nlp
+      return (b, [s!"f {showRat n.f}"] ++ n.rows.map (fun r => "row " ++ r.tag ++ " | " ++ showRats r.atoms) ++ ["end"])
   | ["dims", nx, nxq, nz] => return ({ b with nx := nx.toNat!, nxq := nxq.toNat!, nz := nz.toNat! }, [])
   | ["method", k, n, m, ig] =>
       let kind ← (match k with | "ms" => pure MethodKind.ms | "ss" => pure .ss | "dc" => pure .dc | _ => throw "bad method")
